@@ -6,7 +6,7 @@ CONSTANTS
   Faults = {"sendto", "recvfrom"}
   Extras = {"timeout", "setservers"}
   MaxReq = 3
-  MaxLen = 6
+  MaxLen = 5
 INIT GInit
 NEXT GNext
 INVARIANT Emit
